@@ -169,8 +169,12 @@ func ThreeArcCam2D(
 	p = v2.Vec{0, distance}.Sub(s.flankCenter)
 	s.thetaNose = math.Atan2(p.Y, p.X)
 	// work out the bounding box
-	// TODO fix this - it's wrong if the flank radius is small
-	s.bb = Box2{v2.Vec{-baseRadius, -baseRadius}, v2.Vec{baseRadius, distance + noseRadius}}
+	// the flank arc bulges beyond the base circle when its centre angle range includes 0
+	xmax := math.Max(baseRadius, noseRadius)
+	if s.thetaBase <= 0 && s.thetaNose >= 0 {
+		xmax = math.Max(xmax, s.flankCenter.X+flankRadius)
+	}
+	s.bb = Box2{v2.Vec{-xmax, -baseRadius}, v2.Vec{xmax, distance + noseRadius}}
 	return &s, nil
 }
 
